@@ -25,7 +25,7 @@ REPO = vlib.REPO
 NEST_OK = 200          # nesting depth the Python layer must handle under CPython's default recursion limit
 NEST_PROBE = 500       # nesting depth probed for a RecursionError escaping create_ast (known finding)
 DEFAULT_RECURSION = 1000
-CALL_BUDGET_S = 30
+CALL_BUDGET_S = 10
 
 # ===================================================================== (c) workers
 _W = {}
@@ -73,7 +73,7 @@ def digest(x):
 
 def site_of(tb):
     """(last frame inside vtlengine as 'file:function', deepest frame is inside the stand-in parser?)"""
-    frames = traceback.extract_tb(tb)
+    frames = [f for f in traceback.extract_tb(tb) if f.name != '_alarm']
     last = None
     for f in frames:
         if '/vtlengine/' in f.filename:
@@ -82,8 +82,14 @@ def site_of(tb):
     return last, ('vtlstub' in deepest)
 
 
-def outcome(fn, text, budget=CALL_BUDGET_S):
+def winit_slow():
+    winit()
+    _W['budget'] = 12 * CALL_BUDGET_S
+
+
+def outcome(fn, text, budget=None):
     """('ok', digest) | ('vtl', class, lino, colno, msg) | ('raw', class, site, msg) | ('stub_limit', what)"""
+    budget = budget or _W.get('budget', CALL_BUDGET_S)
     signal.alarm(budget)
     try:
         try:
@@ -138,6 +144,19 @@ def task_history(texts):
             com = 'ERR ' + type(e).__name__
         o2 = outcome(_W['cawc'], t)
         res.append((o, com, o2, check_position(t, o)))
+    return res
+
+
+def task_history_light(texts):
+    """second history: create_ast + comments only"""
+    res = []
+    for t in texts:
+        o = outcome(_W['create_ast'], t)
+        try:
+            com = digest(_W['p'].get_comments())
+        except BaseException as e:  # noqa: BLE001
+            com = 'ERR ' + type(e).__name__
+        res.append((o, com, ('skipped',), None))
     return res
 
 
@@ -267,7 +286,7 @@ class Gens:
 
     def gram(self):
         rng = self.rng
-        r, d, rep = rng.random(), rng.randrange(2, 13), rng.choice([1, 2, 2, 3])
+        r, d, rep = rng.random(), rng.randrange(2, 10), rng.choice([1, 2, 2])
         if r < 0.35:
             return self.sentence('statement', d, rep) + ';'
         if r < 0.6:
@@ -346,7 +365,7 @@ class Gens:
     def nest(self):
         rng = self.rng
         f = rng.choice(sorted(NEST))
-        n = rng.choice([5, 20, 50, 100, 200, 400, 2000])
+        n = rng.choice([5, 20, 50, 100, 200])
         return NEST[f](n)
 
     FAMILIES = [('gram', 30), ('mutate', 25), ('corpus', 8), ('soup', 8), ('stmt_soup', 10), ('latin1', 6), ('unicode', 6), ('nest', 2)]
@@ -494,15 +513,16 @@ def main(ck):
 
     trace('translator')
     # ---------------------------------------------------------------- 1. translator
-    info, gen_ok = None, False
+    info = None
     try:
         info = tr.read(REPO)
         ck.gen('ParserState', tr.emit(info))
-        gen_ok = True
         notes['translated'] = {'fields': info['fields'], 'steps': len(info['steps']), 'listener': info['listener'],
                                'tabWidth': info['tabWidth'], 'columnOffset': info['columnOffset']}
     except vlib.ShapeError as e:
         problems.append(('translator', 'translator:parser_state', 'source no longer has the transcribed shape: %s' % e, None))
+    col_in = info['listener']['colIn'] if info else 1
+    col_fix = (info['listener']['colOut'] + info['columnOffset']) if info else 0
 
     trace('proof')
     # ---------------------------------------------------------------- 2. proof
@@ -513,100 +533,112 @@ def main(ck):
         for f in pr['forbidden'] + pr['bad_axioms']:
             problems.append(('proof', 'audit', f, None))
 
-    trace('model driver')
-    # ---------------------------------------------------------------- 3. model-side checks and witness (driver)
-    model = {}
-    try:
-        bad, good = b'a @ b @'.hex(), b'a'.hex()
-        fields = 'input_text,comments,syntax_error,%ret'
-        ans = ck.driver('TextParser', ['(checks)', '(parseseq %s %s %s)' % (fields, bad, good), '(fresh %s %s)' % (fields, good),
-                                       '(parseseq comments %s %s)' % (good, good), '(fresh comments %s)' % good])
-        model['checks'] = ans[0]
-        after_bad = ans[1].split(' ;; ')[1]
-        model['witness_stale_error'] = None if after_bad == ans[2] else {'history': ['a @ b @', 'a'], 'second_parse': after_bad, 'fresh_parse': ans[2]}
-        twice = ans[3].split(' ;; ')[1]
-        model['witness_comments'] = None if twice == ans[4] else {'history': ['a', 'a'], 'second_parse': twice, 'fresh_parse': ans[4]}
-        ck.count(('model', 'parseseq'), n=2)
-        if 'historyFree=true' not in ans[0] or 'errDiscipline=true' not in ans[0] or 'guarded=true' not in ans[0] \
-                or model['witness_stale_error'] or model['witness_comments']:
-            problems.append(('model', 'doParse_history_free' if 'historyFree=false' in ans[0] else 'first_error_kept',
-                             'the decidable checks on the transcribed step list fail: %s' % ans[0], model))
-    except vlib.DriverError as e:
-        problems.append(('driver', 'driver:TextParser', str(e)[-400:], None))
-    notes['model'] = model
-
-    trace('srcline K')
-    # ---------------------------------------------------------------- 4. K: C++ function vs Lean
+    trace('c++ function')
+    # ---------------------------------------------------------------- 3. the C++ function, compiled from the source
     n_src = 2500 if quick else 52000
-    srcline_viol = []
+    cases, cpp, exe = [], None, None
+    pred_meta, pred_res = [], None
     try:
-        seg = tr.srcline_cpp(REPO)
-        exe = build_cpp(seg)
+        exe = build_cpp(tr.srcline_cpp(REPO))
         cases = srcline_cases(rng, n_src)
         cpp, err = run_cpp(exe, cases)
         if cpp is None:
-            ck.violation('C23/bindings.cpp:extract_source_line_expanded/crash', {'kind': 'srcline', 'why': err},
+            ck.violation('C23/bindings.cpp:extract_source_line_expanded/crash', {'kind': 'srcline-crash', 'why': err},
                          'the compiled extract_source_line_expanded aborted on the test inputs: %s' % err)
-        else:
-            lean = ck.driver('TextParser', ['(srcline %s %d %d)' % (hx(t), l, c) for t, l, c in cases])
-            dis = []
-            for (t, l, c), (o, oc), la in zip(cases, cpp, lean):
-                a, b = la.split(' ')
-                ck.count(('srcline', t, l, c))
-                if (unhx(a), int(b)) != (o, oc):
-                    dis.append({'text_hex': hx(t), 'line': l, 'col': c, 'cpp': [hx(o), oc], 'lean': [a, int(b)]})
-            ck.cov['traces_validated_against_impl'] += len(cases)
-            notes['srcline'] = {'cases': len(cases), 'disagreements': len(dis)}
-            if cases:
-                t, l, c = cases[len(cases) // 2]
-                ck.sample({'srcline': {'text': t[:60].decode('latin-1'), 'line': l, 'col': c, 'cpp': [cpp[len(cases) // 2][0][:60].decode('latin-1'), cpp[len(cases) // 2][1]]}})
-            if dis:
-                problems.append(('corr', 'correspondence:extract_source_line_expanded', '%d of %d cases differ between the compiled C++ function and Text.SrcLine.extract' % (len(dis), len(cases)), dis[:5]))
-            # the property's own predicate on the IMPLEMENTATION output, positions per ANTLR's contract
-            n_pred = 3000 if quick else 30000
-            pcs, meta = [], []
-            alph = [b'\t', b'\r', b' ', b'a', b'b', b';', b'(', b'\n', b'\n', b'x', b'\r\n']
-            alph8 = alph + [b'\xc3\xa9', b'\xe2\x82\xac', b'\xf0\x9f\x98\x80']
-            fixed = [('a := "éééé"\r\r\r\rb;'.encode(), 19), (b'\t\ta := b +;', 10), (b'a :=', 5), (b'', 0)]
-            for i in range(n_pred):
-                if i < len(fixed):
-                    body, k = fixed[i]
-                    t = body + b'\n'
-                else:
-                    ascii_only = rng.random() < 0.7
-                    t = b''.join(rng.choice(alph if ascii_only else alph8) for _ in range(rng.choice([0, 1, 3, 8, 20, 60]))) + b'\n'
-                    offs = [j for j in range(len(t)) if t[j:j + 1] != b'\n' and not 128 <= t[j] < 192] + [len(t)]
-                    k = rng.choice(offs)
-                line, bcol = pos_of(t, k)
-                start = k - bcol
-                cpcol = cp_len(t[start:k])           # what ANTLR's runtime reports: code points
-                pcs.append((t, line, cpcol + info['listener']['colIn'] if info else cpcol + 1))
-                meta.append((t, k, line, cpcol, all(x < 128 for x in t)))
-            pres, err = run_cpp(exe, pcs)
-            for (t, k, line, cpcol, is_ascii), (out, oc) in zip(meta, pres or []):
-                col = oc + (info['listener']['colOut'] + info['columnOffset'] if info else 0)
-                raw = t.split(b'\n')[line - 1]
-                exp = raw.replace(b'\t', b' ' * 4).replace(b'\r', b'')
-                ck.count(('srcpred', t, k))
-                bad = None
-                if out != exp:
-                    bad = 'echoed line is not the line with tabs expanded to 4 spaces and CR dropped'
-                elif not (1 <= col <= cp_len(out) + 1):
-                    bad = 'reported column %d outside 1..%d (length of the echoed line + 1)' % (col, cp_len(out) + 1)
-                if bad:
-                    key = 'C23/bindings.cpp:extract_source_line_expanded/' + ('byte-vs-codepoint-column' if not is_ascii else 'caret-outside-echoed-line')
-                    srcline_viol.append(key)
-                    ck.violation(key, {'kind': 'srcline', 'text_hex': hx(t), 'offset': k, 'line': line, 'charPositionInLine': cpcol,
-                                       'cpp_source_line_hex': hx(out), 'reported_column': col},
-                                 'extract_source_line_expanded (compiled from the source) with ANTLR position line %d, column %d of %r: %s' % (line, cpcol, t[:60], bad))
-            notes['srcline_predicate'] = {'cases': len(meta), 'failing': len(srcline_viol)}
+        # the property's own predicate on the IMPLEMENTATION output, positions per ANTLR's contract
+        n_pred = 3000 if quick else 30000
+        pcs = []
+        alph = [b'\t', b'\r', b' ', b'a', b'b', b';', b'(', b'\n', b'\n', b'x', b'\r\n']
+        alph8 = alph + [b'\xc3\xa9', b'\xe2\x82\xac', b'\xf0\x9f\x98\x80']
+        fixed = [('a := "éééé"\r\r\r\rb;'.encode(), 19), (b'\t\ta := b +;', 10), (b'a :=', 5), (b'', 0)]
+        for i in range(n_pred):
+            if i < len(fixed):
+                body, k = fixed[i]
+                t = body + b'\n'
+            else:
+                t = b''.join(rng.choice(alph if rng.random() < 0.7 else alph8) for _ in range(rng.choice([0, 1, 3, 8, 20, 60]))) + b'\n'
+                offs = [j for j in range(len(t)) if t[j:j + 1] != b'\n' and not 128 <= t[j] < 192] + [len(t)]
+                k = rng.choice(offs)
+            line, bcol = pos_of(t, k)
+            cpcol = cp_len(t[k - bcol:k])           # what ANTLR's runtime reports: code points
+            pcs.append((t, line, cpcol + col_in))
+            pred_meta.append((t, k, line, cpcol, all(x < 128 for x in t)))
+        pred_res, err = run_cpp(exe, pcs)
+        if pred_res is None:
+            ck.violation('C23/bindings.cpp:extract_source_line_expanded/crash', {'kind': 'srcline-crash', 'why': err},
+                         'the compiled extract_source_line_expanded aborted on the test inputs: %s' % err)
     except vlib.ShapeError as e:
         problems.append(('translator', 'correspondence:extract_source_line_expanded', 'cannot cut / compile the function: %s' % e, None))
+
+    n_bad = 0
+    for (t, k, line, cpcol, is_ascii), (out, oc) in zip(pred_meta, pred_res or []):
+        col = oc + col_fix
+        raw = t.split(b'\n')[line - 1]
+        exp = raw.replace(b'\t', b' ' * 4).replace(b'\r', b'')
+        ck.count(('srcpred', t, k))
+        bad = None
+        if out != exp:
+            bad = 'echoed line is not the line with tabs expanded to 4 spaces and CR dropped'
+        elif not (1 <= col <= cp_len(out) + 1):
+            bad = 'reported column %d outside 1..%d (length of the echoed line + 1)' % (col, cp_len(out) + 1)
+        if bad:
+            n_bad += 1
+            key = 'C23/bindings.cpp:extract_source_line_expanded/' + ('byte-vs-codepoint-column' if not is_ascii else 'caret-outside-echoed-line')
+            ck.violation(key, {'kind': 'srcline', 'text_hex': hx(t), 'offset': k, 'line': line, 'charPositionInLine': cpcol,
+                               'cpp_source_line_hex': hx(out), 'reported_column': col},
+                         'extract_source_line_expanded (compiled from the source) with ANTLR position line %d, column %d of %r: %s' % (line, cpcol, t[:60], bad))
+    notes['srcline_predicate'] = {'cases': len(pred_meta), 'failing': n_bad, 'non_ascii_cases': sum(1 for m in pred_meta if not m[4])}
+
+    trace('lean driver')
+    # ---------------------------------------------------------------- 4. ONE run of the Lean driver: model checks + witness, extract, message
+    bad_t, good_t = b'a @ b @'.hex(), b'a'.hex()
+    fields = 'input_text,comments,syntax_error,%ret'
+    req_model = ['(checks)', '(parseseq %s %s %s)' % (fields, bad_t, good_t), '(fresh %s %s)' % (fields, good_t),
+                 '(parseseq comments %s %s)' % (good_t, good_t), '(fresh comments %s)' % good_t]
+    req_src = ['(srcline %s %d %d)' % (hx(t), l, c) for t, l, c in cases] if cpp is not None else []
+    mcases = []
+    for _ in range(300 if quick else 3000):
+        sl = ''.join(rng.choice(' ab;\t\xe9') for _ in range(rng.choice([0, 0, 1, 5, 30])))
+        det = ''.join(rng.choice(" ab';<EOF>\n") for _ in range(rng.randrange(0, 20)))
+        mcases.append((rng.choice([-1, 0, 1, 2, 17, 100000]), rng.choice([-2, 0, 1, 2, len(sl), len(sl) + 1, 500]), rng.choice([-1, 0, 1, 2, 7]), sl, det))
+    req_msg = ['(synmsg %d %d %d %s %s)' % (l, c, u, hx(sl.encode('latin-1')), hx(d.encode('latin-1'))) for l, c, u, sl, d in mcases]
+    model, lean_src, lean_msg = {}, None, None
+    try:
+        ans = ck.driver('TextParser', req_model + req_src + req_msg)
+        am, lean_src, lean_msg = ans[:len(req_model)], ans[len(req_model):len(req_model) + len(req_src)], ans[len(req_model) + len(req_src):]
+        model['checks'] = am[0]
+        after_bad = am[1].split(' ;; ')[1]
+        model['witness_stale_error'] = None if after_bad == am[2] else {'history': ['a @ b @', 'a'], 'second_parse': after_bad, 'fresh_parse': am[2]}
+        twice = am[3].split(' ;; ')[1]
+        model['witness_comments'] = None if twice == am[4] else {'history': ['a', 'a'], 'second_parse': twice, 'fresh_parse': am[4]}
+        ck.count(('model', 'parseseq'), n=2)
+        if 'historyFree=true' not in am[0] or model['witness_stale_error'] or model['witness_comments']:
+            problems.append(('model', 'doParse_history_free', 'the transcribed step list fails the history-freedom check: %s' % am[0], model))
+        if 'errDiscipline=true' not in am[0] or 'guarded=true' not in am[0]:
+            problems.append(('model', 'first_error_kept', 'the transcribed listener / step list fails the first-error discipline: %s' % am[0], model))
     except vlib.DriverError as e:
         problems.append(('driver', 'driver:TextParser', str(e)[-400:], None))
+    notes['model'] = model
+    if lean_src is not None and cpp is not None:
+        dis = []
+        for (t, l, c), (o, oc), la in zip(cases, cpp, lean_src):
+            a2, b2 = la.split(' ')
+            ck.count(('srcline', t, l, c))
+            if (unhx(a2), int(b2)) != (o, oc):
+                dis.append({'text_hex': hx(t), 'line': l, 'col': c, 'cpp': [hx(o), oc], 'lean': [a2, int(b2)]})
+        ck.cov['traces_validated_against_impl'] += len(cases)
+        notes['srcline'] = {'cases': len(cases), 'disagreements': len(dis),
+                            'lines_outside_text': sum(1 for t, l, c in cases if not 1 <= l <= t.count(b'\n') + 1),
+                            'with_tab': sum(1 for t, l, c in cases if b'\t' in t), 'with_cr': sum(1 for t, l, c in cases if b'\r' in t),
+                            'non_ascii': sum(1 for t, l, c in cases if any(x > 127 for x in t))}
+        j = len(cases) // 2
+        ck.sample({'srcline': {'text': cases[j][0][:60].decode('latin-1'), 'line': cases[j][1], 'col': cases[j][2], 'cpp': [cpp[j][0][:60].decode('latin-1'), cpp[j][1]]}})
+        if dis:
+            problems.append(('corr', 'correspondence:extract_source_line_expanded',
+                             '%d of %d cases differ between the compiled C++ function and Text.SrcLine.extract' % (len(dis), len(cases)), dis[:5]))
 
     trace('python layer')
-    # ---------------------------------------------------------------- 5/6. Python layer under the stand-in parser
+    # ---------------------------------------------------------------- 5. Python layer under the stand-in parser
     G = Gens(rng)
     known_examples = [(k['key'], k['example']['text']) for k in vlib.load_known()
                       if k.get('property') == 'C23' and isinstance(k.get('example'), dict) and 'text' in k['example']]
@@ -621,129 +653,139 @@ def main(ck):
         items.append(('nest', NEST[f](n)))
     if not quick:
         items.append(('huge', bytes(rng.randrange(256) for _ in range(100000)).decode('latin-1')))
-        items.append(('huge', 'a := b;\n' * 20000))
-    texts = [t for _, t in items]
-    fam_of = {}
+        items.append(('huge', 'a := b;\n' * 5000))
+    texts, fam_of = [], {}
     for f, t in items:
-        fam_of.setdefault(t, f)
+        if t not in fam_of:
+            fam_of[t] = f
+            texts.append(t)
 
-    def histories(perm_rng, size=25):
+    def histories(size=25):
         idx = list(range(len(texts)))
-        perm_rng.shuffle(idx)
+        rng.shuffle(idx)
         return [idx[i:i + size] for i in range(0, len(idx), size)]
-    hA, hB = histories(rng), histories(rng)
+    hA, hB = histories(), histories()
     ctx = mp.get_context('fork')
     t0 = time.time()
     with ctx.Pool(16, initializer=winit) as pool:
         rA = pool.map(task_history, [[texts[i] for i in h] for h in hA], chunksize=1)
-        rB = pool.map(task_history, [[texts[i] for i in h] for h in hB], chunksize=1)
+        rB = pool.map(task_history_light, [[texts[i] for i in h] for h in hB], chunksize=1)
         nest_cases = [(f, n, NEST[f](n)) for f in ('paren', 'chain', 'neg', 'not', 'if') for n in (NEST_OK, NEST_PROBE)]
         rN = pool.map(task_default_limit, [c[2] for c in nest_cases], chunksize=1)
-    n_fresh = 32 if quick else 160
+    n_fresh = 16 if quick else 96
     fresh_idx = rng.sample(range(len(texts)), min(n_fresh, len(texts)))
     with ctx.Pool(16, initializer=winit, maxtasksperchild=1) as pool:
         rF = pool.map(task_fresh, [texts[i] for i in fresh_idx], chunksize=1)
     notes['py_wall_s'] = round(time.time() - t0, 1)
 
-    resA, resB = {}, {}
-    prevA, prevB = {}, {}
+    resA, resB, prevA, prevB = {}, {}, {}, {}
     for hs, rs, res, prev in ((hA, rA, resA, prevA), (hB, rB, resB, prevB)):
         for h, r in zip(hs, rs):
             for j, (i, x) in enumerate(zip(h, r)):
                 res[i] = x
                 prev[i] = h[j - 1] if j else None
+
+    def limited(*rs):
+        return any(r[0][0] == 'stub_limit' or r[2][0] == 'stub_limit' or (r[0][0] == 'raw' and r[0][1] in ('Timeout', 'RecursionError'))
+                   or (r[2][0] == 'raw' and r[2][1] in ('Timeout', 'RecursionError')) for r in rs)
+
+    def show(r):
+        return [list(map(str, x))[:5] if isinstance(x, tuple) else x for x in r[:3]]
     hist = collections.Counter()
     stub_limit = 0
-    raw_sites = {}
+    raw_sites, slow = {}, []
     for i, t in enumerate(texts):
         o, com, o2, posbad = resA[i]
-        fam = fam_of[t]
-        kind = o[0] if o[0] != 'vtl' else o[1]
-        hist['%s/%s' % (fam, kind)] += 1
+        hist['%s/%s' % (fam_of[t], o[0] if o[0] != 'vtl' else o[1])] += 1
         ck.count(('py', t))
         if o[0] == 'stub_limit' or o2[0] == 'stub_limit':
             stub_limit += 1
         for which, oo in (('create_ast', o), ('create_ast_with_comments', o2)):
-            if oo[0] == 'raw':
-                key = 'C23/py/%s@%s' % (oo[1], oo[2])
+            if oo[0] == 'raw' and oo[1] == 'Timeout':
+                slow.append((which, t, oo))
+            elif oo[0] == 'raw':
+                key = 'C23/py/RecursionError/deep-nesting' if oo[1] == 'RecursionError' else 'C23/py/%s@%s' % (oo[1], oo[2])
                 if key not in raw_sites or len(t) < len(raw_sites[key][1]):
                     raw_sites[key] = (which, t, oo)
         if posbad:
             ck.violation('C23/py/create_ast/syntax-error-position-outside-text', {'kind': 'py', 'text': t, 'outcome': list(o)},
                          'create_ast(%r) under the stand-in parser: %s' % (t[:80], posbad))
-        # history independence: same text, two different histories (+ a fresh process for a subset)
-        if resA[i][:3] != resB[i][:3] and 'stub_limit' not in (resA[i][0][0], resB[i][0][0], resA[i][2][0], resB[i][2][0]):
+        # history independence: same text, two different histories
+        if resA[i][:2] != resB[i][:2] and not limited(resA[i], resB[i]):
             ck.violation('C23/py/history-dependence', {'kind': 'py-history', 'text': t, 'after_A': texts[prevA[i]] if prevA[i] is not None else None,
                                                         'after_B': texts[prevB[i]] if prevB[i] is not None else None,
-                                                        'outcome_A': [list(map(str, x)) if isinstance(x, tuple) else x for x in resA[i][:3]],
-                                                        'outcome_B': [list(map(str, x)) if isinstance(x, tuple) else x for x in resB[i][:3]]},
+                                                        'outcome_A': show(resA[i]), 'outcome_B': show(resB[i])},
                          'parsing %r gives different results after different earlier parses (Python layer under the stand-in parser)' % t[:80])
-    for i, x in zip(fresh_idx, rF):
+    for i, x in zip(fresh_idx, rF):             # ... and a fresh process for a subset
         ck.count(('py-fresh', texts[i]))
-        if x[:3] != resA[i][:3] and 'stub_limit' not in (x[0][0], resA[i][0][0], x[2][0], resA[i][2][0]):
+        if x[:3] != resA[i][:3] and not limited(x, resA[i]):
             ck.violation('C23/py/history-dependence', {'kind': 'py-history', 'text': texts[i], 'after_A': texts[prevA[i]] if prevA[i] is not None else None,
-                                                        'outcome_fresh_process': [list(map(str, y)) if isinstance(y, tuple) else y for y in x[:3]],
-                                                        'outcome_A': [list(map(str, y)) if isinstance(y, tuple) else y for y in resA[i][:3]]},
+                                                        'outcome_fresh_process': show(x), 'outcome_A': show(resA[i])},
                          'parsing %r in a fresh process differs from parsing it after other texts' % texts[i][:80])
+    # a timeout inside the repo's Python layer counts only when it persists alone with a 12x budget (the machine is shared)
+    if slow:
+        with ctx.Pool(4, initializer=winit_slow) as pool:
+            again = pool.map(task_fresh, [t for _, t, _ in slow[:8]], chunksize=1)
+        for (which, t, oo), x in zip(slow, again):
+            for oo2 in (x[0], x[2]):
+                if oo2[0] == 'raw' and oo2[1] == 'Timeout':
+                    raw_sites['C23/py/Timeout@%s' % oo2[2]] = (which, t, oo2)
+    notes['py_slow_retried'] = len(slow)
     for key, (which, t, oo) in sorted(raw_sites.items()):
-        ck.violation(key, {'kind': 'py', 'text': t, 'entry': which, 'exception': oo[1], 'site': oo[2], 'message': oo[3]},
+        ck.violation(key, {'kind': 'py', 'text': t if len(t) < 5000 else t[:5000], 'entry': which, 'exception': oo[1], 'site': oo[2], 'message': oo[3]},
                      '%s(%r) raises %s (not a VTLEngineException) at %s: %s' % (which, t[:100], oo[1], oo[2], oo[3][:80]))
     # nesting under the default recursion limit
     nest_out = {}
     for (f, n, t), o in zip(nest_cases, rN):
         ck.count(('nest-default', f, n))
         nest_out['%s/%d' % (f, n)] = o[0] if o[0] != 'raw' else '%s@%s' % (o[1], o[2])
-        if o[0] == 'raw':
-            if n <= NEST_OK:
-                ck.violation('C23/py/%s@%s/nesting<=%d-default-recursion-limit' % (o[1], o[2], NEST_OK), {'kind': 'py-nest', 'family': f, 'depth': n},
-                             'create_ast of a %s expression nested %d deep raises %s under the default recursion limit' % (f, n, o[1]))
-            else:
-                ck.violation('C23/py/RecursionError/nesting-%d-default-recursion-limit' % NEST_PROBE if o[1] == 'RecursionError' else 'C23/py/%s@%s' % (o[1], o[2]),
-                             {'kind': 'py-nest', 'family': f, 'depth': n, 'site': o[2]},
-                             'create_ast of a %s expression nested %d deep raises %s (not a VTLEngineException) under CPython\'s default recursion limit' % (f, n, o[1]))
+        if o[0] != 'raw':
+            continue
+        if n <= NEST_OK:
+            ck.violation('C23/py/%s/nesting<=%d-default-recursion-limit' % (o[1], NEST_OK), {'kind': 'py-nest', 'family': f, 'depth': n, 'site': o[2]},
+                         'create_ast of a %s expression nested %d deep raises %s under the default recursion limit' % (f, n, o[1]))
+        else:
+            ck.violation('C23/py/RecursionError/deep-nesting' if o[1] == 'RecursionError' else 'C23/py/%s@%s' % (o[1], o[2]),
+                         {'kind': 'py-nest', 'family': f, 'depth': n, 'site': o[2]},
+                         'create_ast of a %s expression nested %d deep raises %s (not a VTLEngineException) under CPython\'s default recursion limit' % (f, n, o[1]))
     notes['nesting_default_limit'] = nest_out
     notes['py'] = {'texts': len(texts), 'histories': len(hA) + len(hB), 'fresh_process_parses': len(fresh_idx), 'outcomes': dict(sorted(hist.items())),
                    'stub_limit': stub_limit, 'non_vtl_exception_sites': sorted(raw_sites)}
     for i in rng.sample(range(len(texts)), 3):
         ck.sample({'py': {'family': fam_of[texts[i]], 'text': texts[i][:100], 'outcome': [str(x)[:100] for x in resA[i][0][:4]]}})
 
-    trace('synmsg K')
-    # ---------------------------------------------------------------- 7. K: VTLSyntaxError message vs Lean `message`
-    try:
+    trace('message')
+    # ---------------------------------------------------------------- 6. K: VTLSyntaxError message vs Lean `message`
+    if lean_msg is not None:
         import eng  # noqa: F401
         from vtlengine.Exceptions import VTLSyntaxError
-        mcases = []
-        for _ in range(300 if quick else 3000):
-            sl = ''.join(rng.choice(' ab;\t\xe9') for _ in range(rng.choice([0, 0, 1, 5, 30])))
-            det = ''.join(rng.choice(" ab';<EOF>\n") for _ in range(rng.randrange(0, 20)))
-            mcases.append((rng.choice([-1, 0, 1, 2, 17, 100000]), rng.choice([-2, 0, 1, 2, len(sl), len(sl) + 1, 500]), rng.choice([-1, 0, 1, 2, 7]), sl, det))
-        lean = ck.driver('TextParser', ['(synmsg %d %d %d %s %s)' % (l, c, u, hx(sl.encode('latin-1')), hx(d.encode('latin-1'))) for l, c, u, sl, d in mcases])
         md = []
-        for (l, c, u, sl, d), a in zip(mcases, lean):
+        for (l, c, u, sl, d), a2 in zip(mcases, lean_msg):
             e = VTLSyntaxError(line=l, column=c, detail=d, source_line=sl, underline_length=u)
             ck.count(('synmsg', l, c, u, sl, d))
-            if str(e).encode('latin-1') != unhx(a) or e.lino != str(l) or e.colno != str(c):
-                md.append({'args': [l, c, u, sl, d], 'python': str(e), 'lean': unhx(a).decode('latin-1')})
+            if str(e).encode('latin-1') != unhx(a2) or e.lino != str(l) or e.colno != str(c):
+                md.append({'args': [l, c, u, sl, d], 'python': str(e), 'lean': unhx(a2).decode('latin-1')})
         notes['synmsg'] = {'cases': len(mcases), 'disagreements': len(md)}
         if md:
             problems.append(('corr', 'correspondence:VTLSyntaxError.message', '%d of %d messages differ from Text.SrcLine.message' % (len(md), len(mcases)), md[:3]))
-    except vlib.DriverError as e:
-        problems.append(('driver', 'driver:TextParser', str(e)[-400:], None))
 
     trace('verdict')
-    # ---------------------------------------------------------------- 8. verdict for broken obligations / disagreements
-    # The failing-input search already ran: (4) evaluated the caret predicate on the compiled C++ function,
-    # (5/6) evaluated "AST or VTL error", the position predicate and history independence on the Python layer.
+    # ---------------------------------------------------------------- 7. verdict for broken obligations / disagreements
+    # The failing-input search already ran: (3) evaluated the caret predicate on the compiled C++ function,
+    # (5) evaluated "AST or VTL error", the position predicate and history independence on the Python layer.
     # A concrete failing input was reported above as a violation; what remains is reported as unproved.
-    found_concrete = [v for v in ck.viol if not v[3]]
+    found_concrete = [v[0] for v in ck.viol if not v[3]]
+    state_names = ('doParse_history_free', 'doParse_events_history_free', 'first_error_kept', 'listener_installed', 'statics_accounted',
+                   'getters_covered', 'translator:parser_state')
     for kind, name, why, detail in problems:
         extra = ''
-        if kind in ('proof', 'model', 'translator') and name in ('doParse_history_free', 'doParse_events_history_free', 'first_error_kept', 'listener_installed',
-                                                                'statics_accounted', 'getters_covered', 'translator:parser_state', '<build>'):
-            extra = (' — the module state lives in the C++ extension, which cannot be built or run here, so no failing input can be exhibited on the implementation;'
-                     ' model witness: %s' % json.dumps({k: v for k, v in model.items() if v}, ensure_ascii=False)[:600])
-        ck.unproved(name, why + extra + (' (concrete violations found by the search are listed separately: %s)' % [v[0] for v in found_concrete] if found_concrete else ''),
-                    detail={'detail': detail, 'model': model})
+        if name in state_names or name.startswith('<'):
+            extra = (' — the module state lives in the C++ extension, which cannot be built or run here, so no failing input can be exhibited on the'
+                     ' implementation (the Python-layer history test under the stand-in parser cannot observe C++ state); model witness: %s'
+                     % json.dumps({k: v for k, v in model.items() if v}, ensure_ascii=False)[:700])
+        if found_concrete:
+            extra += ' (concrete violations found by the search are reported separately: %s)' % found_concrete
+        ck.unproved(name, why + extra, detail={'detail': detail, 'model': model})
     for k, v in notes.items():
         ck.note(k, v)
 
